@@ -91,6 +91,8 @@ func (g *Gen) randomAggs(s schema, keys []string) []Agg {
 }
 
 func genC04(g *Gen) {
+	g.keyProducts("GroupBy", toBS("rid"))
+	g.largeKeyed("GroupBy", toBS("rid"))
 	g.groupArrangements(4)
 	if g.thorough() {
 		g.groupArrangements(5)
@@ -188,6 +190,8 @@ func (g *Gen) groupArrangements(n int) {
 
 func genC05(g *Gen) {
 	rid := toBS("rid")
+	g.keyProducts("Distinct", rid)
+	g.largeKeyed("Distinct", rid)
 	sizes := []int{0, 1, 2, 3, 5, 9, 17, 33, 70, 140}
 	cards := []int{1, 2, 3, 5, 9, 20, 40, 100}
 	if g.thorough() {
@@ -221,5 +225,149 @@ func genC05(g *Gen) {
 			g.do(Step{Op: "Distinct", Recv: f, Cols: bsList(keys), Null: g.rng.Intn(2) == 0, Rid: rid})
 		}
 		g.end()
+	}
+}
+
+// keyProducts: for every ordered pair (and a sample of triples) of key column types - int, float, bool,
+// string, declared enum, derived enum - a frame holding the full product of {null, v0, v1} per key (bool:
+// {false, true}; int: no null) with some rows repeated, in random order; grouped / deduplicated on the
+// pair with both Null settings. Combined keys of every type mix are thereby enumerated, not sampled.
+func (g *Gen) keyProducts(op string, rid BS) {
+	kinds := []string{"int", "float", "bool", "string", "enumD", "enumX"}
+	valsOf := func(k string) []int { // -1 = null
+		switch k {
+		case "int":
+			return []int{0, 1, 2}
+		case "bool":
+			return []int{0, 1}
+		}
+		return []int{-1, 0, 1}
+	}
+	mkCol := func(name, kind string, codes []int, st *Step) {
+		n := len(codes)
+		switch kind {
+		case "int":
+			v := make([]int64, n)
+			for i, c := range codes {
+				v[i] = int64(c)
+			}
+			st.Data = append(st.Data, ColData{Name: toBS(name), Kind: "int", Ints: v})
+		case "float":
+			v := make([]string, n)
+			for i, c := range codes {
+				v[i] = []string{"NaN", "0", "1.5"}[c+1]
+			}
+			st.Data = append(st.Data, ColData{Name: toBS(name), Kind: "float", Floats: v})
+		case "bool":
+			v := make([]bool, n)
+			for i, c := range codes {
+				v[i] = c == 1
+			}
+			st.Data = append(st.Data, ColData{Name: toBS(name), Kind: "bool", Bools: v})
+		default:
+			v := make([]*BS, n)
+			for i, c := range codes {
+				if c >= 0 {
+					v[i] = bsp([]string{"p", "q"}[c])
+				}
+			}
+			st.Data = append(st.Data, ColData{Name: toBS(name), Kind: "string", Strs: v})
+			if kind == "enumD" {
+				st.HasEnums = true
+				st.Enums = append(st.Enums, EnumDecl{Name: toBS(name), Vals: bsList([]string{"q", "p"})})
+			} else if kind == "enumX" {
+				st.HasEnums = true
+				st.Enums = append(st.Enums, EnumDecl{Name: toBS(name), Vals: nil})
+			}
+		}
+		st.ColOrder = append(st.ColOrder, toBS(name))
+	}
+	run := func(ks []string) {
+		// the product of the value sets, each combination once or twice, shuffled
+		combos := [][]int{{}}
+		for _, k := range ks {
+			next := [][]int{}
+			for _, c := range combos {
+				for _, v := range valsOf(k) {
+					next = append(next, append(append([]int{}, c...), v))
+				}
+			}
+			combos = next
+		}
+		rows := [][]int{}
+		for _, c := range combos {
+			rows = append(rows, c)
+			if g.rng.Intn(3) == 0 {
+				rows = append(rows, c)
+			}
+		}
+		g.rng.Shuffle(len(rows), func(i, j int) { rows[i], rows[j] = rows[j], rows[i] })
+		st := Step{Op: "New", Recv: -1, HasOrder: true}
+		names := []string{}
+		for ci, k := range ks {
+			codes := make([]int, len(rows))
+			for r := range rows {
+				codes[r] = rows[r][ci]
+			}
+			name := "K" + itoa(ci)
+			names = append(names, name)
+			mkCol(name, k, codes, &st)
+		}
+		g.begin("key product")
+		f := g.do(st)
+		f = g.do(Step{Op: "WithRowNums", Recv: f, Dst: rid})
+		for _, null := range []bool{false, true} {
+			if op == "GroupBy" {
+				g.do(Step{Op: "GroupBy", Recv: f, Cols: bsList(names), Null: null, Rid: rid})
+				g.do(Step{Op: "Aggregate", Recv: len(g.x.groupers) - 1, Aggs: []Agg{{Fn: FnRef{K: "builtin", Sym: "count"}, Col: rid}}})
+			} else {
+				g.do(Step{Op: "Distinct", Recv: f, Cols: bsList(names), Null: null, Rid: rid})
+			}
+		}
+		g.end()
+	}
+	for _, a := range kinds {
+		for _, b := range kinds {
+			run([]string{a, b})
+		}
+	}
+	for k := 0; k < g.pick(20, 216); k++ {
+		run([]string{kinds[g.rng.Intn(6)], kinds[g.rng.Intn(6)], kinds[g.rng.Intn(6)]})
+	}
+	for _, a := range kinds {
+		run([]string{a})
+	}
+}
+
+// largeKeyed: row counts around the sizes at which an implementation may change strategy (powers of
+// two), with keys that are all distinct, or few and repeating with one new key in the very last rows
+func (g *Gen) largeKeyed(op string, rid BS) {
+	sizes := []int{4097, 4099}
+	if g.thorough() {
+		sizes = []int{1023, 1025, 2049, 4095, 4096, 4097, 4098, 4099, 8193, 16387}
+	}
+	for _, n := range sizes {
+		for variant := 0; variant < 2; variant++ {
+			k := make([]int64, n)
+			for i := range k {
+				if variant == 0 {
+					k[i] = int64((i * 7919) % 100003) // all distinct
+				} else {
+					k[i] = int64(i % 10)
+				}
+			}
+			if variant == 1 {
+				k[n-1] = 77 // a key no earlier row carries
+			}
+			g.begin("large keyed")
+			f := g.do(Step{Op: "New", Recv: -1, Data: []ColData{{Name: toBS("K"), Kind: "int", Ints: k}}})
+			f = g.do(Step{Op: "WithRowNums", Recv: f, Dst: rid})
+			if op == "GroupBy" {
+				g.do(Step{Op: "GroupBy", Recv: f, Cols: bsList([]string{"K"}), Rid: rid})
+			} else {
+				g.do(Step{Op: "Distinct", Recv: f, Cols: bsList([]string{"K"}), Rid: rid})
+			}
+			g.end()
+		}
 	}
 }
